@@ -359,4 +359,113 @@ func decodeStorableWithBlob(dec *cbor.StreamDecoder, id atree.SlabID, inlined []
 	return tu.DecodeStorable(dec, id, inlined)
 }
 
-func init() { decodeStorable = decodeStorableWithBlob }
+func init() { decodeStorable = safeDecodeStorable }
+
+// safeDecodeStorable is the harness' caller-supplied storable decoder: the same format as
+// test_utils.DecodeStorable, but it recurses with itself and bounds the "nested levels" count of
+// multi-level wrappers. (test_utils.DecodeStorable builds one wrapper object per level in an unbounded
+// loop, so a crafted 8-byte level count makes the *helper* allocate without limit - a weakness of the test
+// helper, not of atree; C19 must not blame the library for it.)
+func safeDecodeStorable(dec *cbor.StreamDecoder, id atree.SlabID, inlined []atree.ExtraData) (atree.Storable, error) {
+	t, err := dec.NextType()
+	if err != nil {
+		return nil, err
+	}
+	switch t {
+	case cbor.ByteStringType:
+		return decodeBlob(dec)
+	case cbor.TextStringType:
+		s, err := dec.DecodeString()
+		if err != nil {
+			return nil, err
+		}
+		return tu.NewStringValue(s), nil
+	case cbor.TagType:
+		tag, err := dec.DecodeTagNumber()
+		if err != nil {
+			return nil, err
+		}
+		switch tag {
+		case atree.CBORTagInlinedArray:
+			return atree.DecodeInlinedArrayStorable(dec, safeDecodeStorable, id, inlined)
+		case atree.CBORTagInlinedMap:
+			return atree.DecodeInlinedMapStorable(dec, safeDecodeStorable, id, inlined)
+		case atree.CBORTagInlinedCompactMap:
+			return atree.DecodeInlinedCompactMapStorable(dec, safeDecodeStorable, id, inlined)
+		case atree.CBORTagSlabID:
+			return atree.DecodeSlabIDStorable(dec)
+		case 161, 162, 163, 164:
+			n, err := dec.DecodeUint64()
+			if err != nil {
+				return nil, err
+			}
+			switch tag {
+			case 161:
+				if n > 0xff {
+					return nil, fmt.Errorf("verif: uint8 out of range")
+				}
+				return tu.Uint8Value(n), nil
+			case 162:
+				if n > 0xffff {
+					return nil, fmt.Errorf("verif: uint16 out of range")
+				}
+				return tu.Uint16Value(n), nil
+			case 163:
+				if n > 0xffffffff {
+					return nil, fmt.Errorf("verif: uint32 out of range")
+				}
+				return tu.Uint32Value(n), nil
+			}
+			return tu.Uint64Value(n), nil
+		case tu.CBORTagSomeValue:
+			s, err := safeDecodeStorable(dec, id, inlined)
+			if err != nil {
+				return nil, err
+			}
+			return tu.SomeStorable{Storable: s}, nil
+		case 167:
+			cnt, err := dec.DecodeArrayHead()
+			if err != nil {
+				return nil, err
+			}
+			if cnt != 2 {
+				return nil, fmt.Errorf("verif: invalid nested wrapper encoding")
+			}
+			levels, err := dec.DecodeUint64()
+			if err != nil {
+				return nil, err
+			}
+			if levels <= 1 || levels > 64 {
+				return nil, fmt.Errorf("verif: invalid nested wrapper level count %d", levels)
+			}
+			inner, err := safeDecodeStorable(dec, id, inlined)
+			if err != nil {
+				return nil, err
+			}
+			s := tu.SomeStorable{Storable: inner}
+			for i := uint64(1); i < levels; i++ {
+				s = tu.SomeStorable{Storable: s}
+			}
+			return s, nil
+		}
+		return nil, fmt.Errorf("verif: invalid tag number %d", tag)
+	}
+	return nil, fmt.Errorf("verif: invalid cbor type %s for storable", t)
+}
+
+func decodeBlob(dec *cbor.StreamDecoder) (atree.Storable, error) {
+	b, err := dec.DecodeBytes()
+	if err != nil {
+		return nil, err
+	}
+	if len(b) < 8 {
+		return nil, fmt.Errorf("verif: short blob")
+	}
+	v := BlobValue{ID: binary.BigEndian.Uint64(b), Pad: uint32(len(b) - 8)}
+	if h, ok := blobDecodeHook.Load().(func(uint64) error); ok && h != nil {
+		if err := h(v.ID); err != nil {
+			return nil, err
+		}
+	}
+	return v, nil
+}
